@@ -26,6 +26,7 @@ CONSTANTS Fam,        \* "hypercube" | "simplex"
           PartSets,   \* set of sets of part tags, tags in {"A","B","C","D","E"}
           PtnCfgs,    \* subset of {0, 1, 2}
           Indents,    \* subset of BOOLEAN
+          ChartKinds, \* subset of 0..5: which chart the atlas holds (see ChartBody)
           Muts        \* BOOLEAN: also enumerate every single structured mutation of every document
 
 VARIABLES ph, doc, mut
@@ -139,13 +140,55 @@ PartsOf(S, topo, cells, par) ==
   (IF "E" \in S THEN << PartE(topo, cells) >> ELSE << >>)
 PSize(p) == [e1 \in 1..(Dim + 1) |-> Len(p.map[e1])]
 
-\* charts: only those whose text form is a single line (Circle in 2D, Sphere in 3D); Bezier / SurfaceMesh / Extrude are
-\* covered on the shipped files (direction V)
-ChartsOf(S, withdom) ==
-  IF "B" \in S \/ "E" \in S \/ "A" \in S THEN
-    << [name |-> "c0", radius |-> Dy(3, 1), mid |-> [a \in 1..Dim |-> Coord(a, 1)],
-        dom |-> IF Dim = 2 /\ withdom THEN << Dy(0, 0), Dy(4, 0) >> ELSE << >>] >>
-  ELSE << >>
+\* charts.  A chart body is one of
+\*   [kind "circle", radius, mid, dom (<< >> or two numbers)]            2D
+\*   [kind "sphere", radius, mid]                                        3D
+\*   [kind "bezier", closed, orient (1 | -1), pts, params]               2D; pts[k] = [ctrl |-> control points, v |-> vertex point]
+\*   [kind "extrude", origin, offset, angles (<< >> = not given), sub]   3D; sub = circle or bezier body
+\* (SurfaceMesh charts are covered on the shipped files, direction V).  Angles are yaw-pitch-roll in revolutions.
+Pt(x, y) == << x, y >>
+CircleBody(withdom) == [kind |-> "circle", radius |-> Dy(3, 1), mid |-> [a \in 1..2 |-> Coord(a, 1)],
+                        dom |-> IF withdom THEN << Dy(0, 0), Dy(4, 0) >> ELSE << >>]
+SphereBody == [kind |-> "sphere", radius |-> Dy(3, 1), mid |-> [a \in 1..3 |-> Coord(a, 1)]]
+\* open spline: line segment, cubic segment (two control points), parameterised
+BezierOpen == [kind |-> "bezier", closed |-> FALSE, orient |-> 1,
+               pts |-> << [ctrl |-> << >>, v |-> Pt(Dy(0, 0), Dy(-1, 1))],
+                          [ctrl |-> << Pt(Dy(1, 1), Dy(-1, 1)), Pt(Dy(5, 3), Dy(-1, 2)) >>, v |-> Pt(Dy(1, 0), Dy(-1, 2))],
+                          [ctrl |-> << >>, v |-> Pt(Dy(2, 0), Dy(-1, 1))] >>,
+               params |-> << Dy(0, 0), Dy(1, 1), Dy(1, 0) >>]
+\* closed polyline with one quadratic segment, negative orientation, not parameterised
+BezierClosed == [kind |-> "bezier", closed |-> TRUE, orient |-> -1,
+                 pts |-> << [ctrl |-> << >>, v |-> Pt(Dy(0, 0), Dy(0, 0))],
+                            [ctrl |-> << >>, v |-> Pt(Dy(1, 0), Dy(0, 0))],
+                            [ctrl |-> << Pt(Dy(3, 1), Dy(3, 2)) >>, v |-> Pt(Dy(1, 0), Dy(1, 0))],
+                            [ctrl |-> << >>, v |-> Pt(Dy(0, 0), Dy(0, 0))] >>,
+                 params |-> << >>]
+Extr(ori, off, ang, sub) == [kind |-> "extrude", origin |-> ori, offset |-> off, angles |-> ang, sub |-> sub]
+Ang(y, p, r) == << Dy(y, 3), Dy(p, 3), Dy(r, 3) >>      \* eighths of a revolution
+ChartBody(ck, n) ==
+  IF Dim = 2 THEN (IF ck = 0 THEN CircleBody(n = 2) ELSE IF ck % 2 = 1 THEN BezierOpen ELSE BezierClosed)
+  ELSE IF ck = 0 THEN SphereBody
+  ELSE IF ck = 1 THEN Extr(Pt(Dy(1, 1), Dy(-5, 2)), << Dy(1, 2), Dy(1, 0), Dy(-1, 1) >>, Ang(1, -1, 3), CircleBody(FALSE))     \* generic rotation
+  ELSE IF ck = 2 THEN Extr(<< >>, << >>, Ang(1, 2, -2), CircleBody(TRUE))                  \* pitch +1/4: gimbal lock
+  ELSE IF ck = 3 THEN Extr(<< >>, << Dy(0, 0), Dy(0, 0), Dy(0, 0) >>, Ang(1, -2, 2), BezierOpen)   \* pitch -1/4: gimbal lock; zero offset given
+  ELSE IF ck = 4 THEN Extr(Pt(Dy(0, 0), Dy(3, 2)), << >>, Ang(-3, -2, 1), CircleBody(FALSE))      \* pitch -1/4 again, other yaw/roll
+  ELSE Extr(<< >>, << >>, Ang(0, 0, 0), BezierClosed)                                       \* identity rotation given explicitly
+ChartsOf(S, ck, n) ==
+  IF "B" \in S \/ "E" \in S \/ "A" \in S THEN << [name |-> "c0", body |-> ChartBody(ck, n)] >> ELSE << >>
+
+\* the rotation the angles denote is Rz(yaw) Ry(pitch) Rx(roll).  For pitch = +-1/4 (gimbal lock) only roll -+ yaw matters:
+\*   Rz(y) Ry(+1/4) Rx(r) = Ry(+1/4) Rx(r - y),     Rz(y) Ry(-1/4) Rx(r) = Ry(-1/4) Rx(r + y)
+\* The canonical angles of a rotation (what a writer has to emit so that the text denotes the same rotation and a second
+\* write reproduces it) have yaw = 0 at gimbal lock; a rotation equal to the identity is not written at all.
+\* Domain of the generator: |yaw|, |roll| < 1/2, |pitch| <= 1/4, |roll -+ yaw| < 1/2.
+DyAdd(a, b) == Dy(a[1] * Pow2(3 - a[2]) + b[1] * Pow2(3 - b[2]), 3)
+DyNeg(a) == << -a[1], a[2] >>
+CanonAngles(a) ==
+  IF a = << >> \/ (a[1][1] = 0 /\ a[2][1] = 0 /\ a[3][1] = 0) THEN << >>
+  ELSE IF a[2] = Dy(1, 2) THEN << Dy(0, 0), a[2], DyAdd(a[3], DyNeg(a[1])) >>
+  ELSE IF a[2] = Dy(-1, 2) THEN << Dy(0, 0), a[2], DyAdd(a[3], a[1]) >>
+  ELSE a
+CanonVec(v) == IF v = << >> \/ (\A i \in 1..Len(v) : v[i][1] = 0) THEN << >> ELSE v
 
 \* partitions; every patch is an ascending list (the reader collects a patch in a set)
 PtnsOf(cfg, n) ==
@@ -154,11 +197,11 @@ PtnsOf(cfg, n) ==
   ELSE << [name |-> "", prio |-> -1, level |-> 1, np |-> 3, ne |-> 4, patches |-> << <<0, 2>>, <<1, 3>>, << >> >>],
           [name |-> "auto", prio |-> 2, level |-> 0, np |-> 1, ne |-> n, patches |-> << [c \in 1..n |-> c - 1] >>] >>
 
-MkDoc(n, S, cfg, ind, par) ==
+MkDoc(n, S, cfg, ind, par, ck) ==
   LET cells == CellsOf(n)  topo == TopoOf(cells) IN
   [id |-> Join(<< Fam, IStr(Dim), IStr(n), Join([i \in 1..5 |-> IF <<"A", "B", "C", "D", "E">>[i] \in S THEN <<"A", "B", "C", "D", "E">>[i] ELSE ""], ""), IStr(cfg),
-                  IF ind THEN "i" ELSE "f", IF par THEN "p" ELSE "e" >>, "-"),
-   indent |-> ind, verts |-> VertsOf(n), topo |-> topo, charts |-> ChartsOf(S, n = 2),
+                  IF ind THEN "i" ELSE "f", IF par THEN "p" ELSE "e", "k" \o IStr(ck) >>, "-"),
+   indent |-> ind, verts |-> VertsOf(n), topo |-> topo, charts |-> ChartsOf(S, ck, n),
    parts |-> PartsOf(S, topo, cells, par), ptns |-> PtnsOf(cfg, n)]
 
 \* ---------------------------------------------------------------------------------------------------------------------
@@ -171,12 +214,30 @@ Data(l, n, t) == [k |-> "data",  lvl |-> l, name |-> n, attrs |-> << >>, toks |-
 Block(l, n, a, rows) == << Open(l, n, a) >> \o [i \in 1..Len(rows) |-> Data(l + 1, n, rows[i])] \o << Close(l, n) >>
 
 TypeStr == "conformal:" \o Fam \o ":" \o IStr(Dim) \o ":" \o IStr(Dim)
-ChartLines(c) ==
-  << Open(1, "Chart", << <<"name", c.name>> >>),
-     Leaf(2, IF Dim = 2 THEN "Circle" ELSE "Sphere",
-          << <<"radius", DStr(c.radius)>>, <<"midpoint", Join(DStrs(c.mid), " ")>> >> \o
-          (IF Len(c.dom) = 2 THEN << <<"domain", Join(DStrs(c.dom), " ")>> >> ELSE << >>)),
-     Close(1, "Chart") >>
+\* lines of a chart body at nesting level l; asin: the input form (attributes as given) instead of the writer's canonical form
+PointRow(p) == << IStr(Len(p.ctrl)) >> \o Concat([k \in 1..Len(p.ctrl) |-> DStrs(p.ctrl[k])]) \o DStrs(p.v)
+SimpleBodyLines(b, l) ==
+  IF b.kind = "circle" THEN
+    << Leaf(l, "Circle", << <<"radius", DStr(b.radius)>>, <<"midpoint", Join(DStrs(b.mid), " ")>> >> \o
+                         (IF Len(b.dom) = 2 THEN << <<"domain", Join(DStrs(b.dom), " ")>> >> ELSE << >>)) >>
+  ELSE IF b.kind = "sphere" THEN
+    << Leaf(l, "Sphere", << <<"radius", DStr(b.radius)>>, <<"midpoint", Join(DStrs(b.mid), " ")>> >>) >>
+  ELSE \* bezier
+    << Open(l, "Bezier", << <<"dim", "2">>, <<"size", IStr(Len(b.pts))>>, <<"type", IF b.closed THEN "closed" ELSE "open">> >> \o
+                         (IF b.orient = -1 THEN << <<"orientation", "-1">> >> ELSE << >>)) >>
+    \o Block(l + 1, "Points", << >>, [k \in 1..Len(b.pts) |-> PointRow(b.pts[k])])
+    \o (IF Len(b.params) > 0 THEN Block(l + 1, "Params", << >>, [k \in 1..Len(b.params) |-> << DStr(b.params[k]) >>]) ELSE << >>)
+    \o << Close(l, "Bezier") >>
+BodyLines(b, l, asin) ==
+  IF b.kind # "extrude" THEN SimpleBodyLines(b, l)
+  ELSE LET ori == IF asin THEN b.origin ELSE CanonVec(b.origin)
+           off == IF asin THEN b.offset ELSE CanonVec(b.offset)
+           ang == IF asin THEN b.angles ELSE CanonAngles(b.angles) IN
+    << Open(l, "Extrude", (IF ori # << >> THEN << <<"origin", Join(DStrs(ori), " ")>> >> ELSE << >>) \o
+                          (IF off # << >> THEN << <<"offset", Join(DStrs(off), " ")>> >> ELSE << >>) \o
+                          (IF ang # << >> THEN << <<"angles", Join(DStrs(ang), " ")>> >> ELSE << >>)) >>
+    \o SimpleBodyLines(b.sub, l + 1) \o << Close(l, "Extrude") >>
+ChartLines(c, asin) == << Open(1, "Chart", << <<"name", c.name>> >>) >> \o BodyLines(c.body, 2, asin) \o << Close(1, "Chart") >>
 MeshLines(D) ==
   << Open(1, "Mesh", << <<"type", TypeStr>>,
                         <<"size", Join(IStrs(<<Len(D.verts)>> \o [e \in 1..Dim |-> Len(D.topo[e])]), " ")>> >>) >>
@@ -209,13 +270,14 @@ PtnLines(q) ==
   \o << Close(1, "Partition") >>
 Lines(D, asin) ==
   << Open(0, "FeatMeshFile", << <<"version", "1">>, <<"mesh", TypeStr>> >>) >>
-  \o Concat([c \in 1..Len(D.charts) |-> ChartLines(D.charts[c])])
+  \o Concat([c \in 1..Len(D.charts) |-> ChartLines(D.charts[c], asin)])
   \o MeshLines(D)
   \o Concat([p \in 1..Len(D.parts) |-> PartLines(D.parts[p], asin)])
   \o Concat([q \in 1..Len(D.ptns) |-> PtnLines(D.ptns[q])])
   \o << Close(0, "FeatMeshFile") >>
 
-Sp(ind, l) == IF ~ind \/ l = 0 THEN "" ELSE IF l = 1 THEN "  " ELSE IF l = 2 THEN "    " ELSE "      "
+Sp(ind, l) == IF ~ind \/ l = 0 THEN "" ELSE IF l = 1 THEN "  " ELSE IF l = 2 THEN "    " ELSE IF l = 3 THEN "      "
+              ELSE IF l = 4 THEN "        " ELSE "          "
 AttrStr(a) == Join([i \in 1..Len(a) |-> " " \o a[i][1] \o "=\"" \o a[i][2] \o "\""], "")
 Render(ind, r) ==
   Sp(ind, r.lvl) \o (IF r.k = "open" THEN "<" \o r.name \o AttrStr(r.attrs) \o ">"
@@ -238,6 +300,7 @@ Mandatory(name) ==
   CASE name = "FeatMeshFile" -> {"version"}
     [] name = "Chart" -> {"name"}
     [] name \in {"Circle", "Sphere"} -> {"radius", "midpoint"}
+    [] name = "Bezier" -> {"dim", "size"}
     [] name = "Mesh" -> {"type", "size"}
     [] name \in {"Topology", "Mapping"} -> {"dim"}
     [] name = "MeshPart" -> {"name", "parent", "size", "topology"}
@@ -271,7 +334,10 @@ Mutations(D) ==
 
       Trunc == {M("trunc", "trunc", k, "", "syntax", k + 1) : k \in 0..(n - 1)}
 
-      DelData == {M("del_data", "del", i, "", "grammar", CloseIdx(EnclIdx(i)) - 1) : i \in {j \in 1..n : L[j].k = "data"}}
+      \* (the first line of a Bezier Points block must be a vertex point: deleting it exposes the next line)
+      DelData == {IF L[i].name = "Points" /\ L[i - 1].k = "open" /\ L[i + 1].k = "data" /\ L[i + 1].toks[1] # "0"
+                  THEN M("del_data", "del", i, "", "content", i)
+                  ELSE M("del_data", "del", i, "", "grammar", CloseIdx(EnclIdx(i)) - 1) : i \in {j \in 1..n : L[j].k = "data"}}
       DupData == {M("dup_data", "ins", i, R(L[i]), "content", CloseIdx(EnclIdx(i))) : i \in {j \in 1..n : L[j].k = "data"}}
 
       DelOpen == {M("del_open", "del", i, "",
@@ -286,7 +352,7 @@ Mutations(D) ==
       Unknown == {M("unknown_markup", "ins", i, "<Foo>", IF i = n + 1 THEN "ok" ELSE "grammar", IF i = n + 1 THEN 0 ELSE i) : i \in 1..(n + 1)}
       Unbal == {M("stray_terminator", "ins", i, "</Foo>", IF i = n + 1 THEN "ok" ELSE "syntax", IF i = n + 1 THEN 0 ELSE i) : i \in 1..(n + 1)}
       Stray == {M("stray_content", "ins", i, "0", "grammar", i)
-                  : i \in {j \in 2..n : EnclIdx(j) # 0 /\ L[EnclIdx(j)].name \in {"FeatMeshFile", "Chart", "Mesh", "MeshPart", "Partition"}}}
+                  : i \in {j \in 2..n : EnclIdx(j) # 0 /\ L[EnclIdx(j)].name \in {"FeatMeshFile", "Chart", "Extrude", "Bezier", "Mesh", "MeshPart", "Partition"}}}
 
       \* attributes
       AttrLines == {j \in 1..n : L[j].k \in {"open", "leaf"}}
@@ -295,9 +361,19 @@ Mutations(D) ==
         ELSE IF key = "chart" THEN
           LET p == PartAt(i) IN MOk("missing_optional_attr", "rep", i, R(WithoutAttr(L[i], 3)),
                                     [D EXCEPT !.parts[p].chart = ""])
-        ELSE IF key = "domain" THEN
-          LET c == Cardinality({j \in 1..i : L[j].k = "open" /\ L[j].name = "Chart"}) IN
-            MOk("missing_optional_attr", "rep", i, R(WithoutAttr(L[i], 3)), [D EXCEPT !.charts[c].dom = << >>])
+        ELSE IF L[i].name \in {"Circle", "Bezier", "Extrude"} THEN
+          LET c == Cardinality({j \in 1..i : L[j].k = "open" /\ L[j].name = "Chart"})
+              a == CHOOSE a \in 1..Len(L[i].attrs) : L[i].attrs[a][1] = key
+              nested == L[EnclIdx(i)].name = "Extrude"
+              B == D.charts[c].body
+              upd(b) == IF key = "domain" THEN [b EXCEPT !.dom = << >>]
+                        ELSE IF key = "type" THEN [b EXCEPT !.closed = FALSE]
+                        ELSE IF key = "orientation" THEN [b EXCEPT !.orient = 1]
+                        ELSE IF key = "origin" THEN [b EXCEPT !.origin = << >>]
+                        ELSE IF key = "offset" THEN [b EXCEPT !.offset = << >>]
+                        ELSE [b EXCEPT !.angles = << >>]
+          IN MOk("missing_optional_attr", "rep", i, R(WithoutAttr(L[i], a)),
+                 [D EXCEPT !.charts[c].body = IF nested THEN [B EXCEPT !.sub = upd(B.sub)] ELSE upd(B)])
         ELSE LET q == PtnAt(i)
                  a == CHOOSE a \in 1..Len(L[i].attrs) : L[i].attrs[a][1] = key IN
           MOk("missing_optional_attr", "rep", i, R(WithoutAttr(L[i], a)),
@@ -316,7 +392,8 @@ Mutations(D) ==
                      : i \in {j \in 1..n : L[j].k = "open"}}
 
       \* declared counts
-      SizeVals(i) == IF L[i].name = "Mesh" THEN <<nv>> \o [e \in 1..Dim |-> Len(D.topo[e])]
+      SizeVals(i) == IF L[i].name = "Bezier" THEN << NData(i + 1) >>
+                     ELSE IF L[i].name = "Mesh" THEN <<nv>> \o [e \in 1..Dim |-> Len(D.topo[e])]
                      ELSE IF L[i].name = "MeshPart" THEN PSize(D.parts[PartAt(i)])
                      ELSE IF L[i].name = "Partition" THEN << D.ptns[PtnAt(i)].np, D.ptns[PtnAt(i)].ne >>
                      ELSE << NData(i) >>
@@ -337,6 +414,9 @@ Mutations(D) ==
              LET b == BlockOf(i, "Mapping", j - 1)
              IN IF b = 0 THEN M("count", "rep", i, txt, "grammar", CloseIdx(i))       \* "missing mapping" at the part terminator
                 ELSE M("count", "rep", i, txt, IF dlt > 0 THEN "grammar" ELSE "content", IF dlt > 0 THEN CloseIdx(b) ELSE CloseIdx(b) - 1)
+           ELSE IF nm = "Bezier" THEN     \* size = number of vertex points = lines of the Points block (and of Params)
+             (IF vals[1] + dlt < 2 THEN M("count", "rep", i, txt, "grammar", i)
+              ELSE M("count", "rep", i, txt, IF dlt > 0 THEN "grammar" ELSE "content", IF dlt > 0 THEN CloseIdx(i + 1) ELSE CloseIdx(i + 1) - 1))
            ELSE IF nm = "Patch" THEN
              M("count", "rep", i, txt, IF dlt > 0 THEN "grammar" ELSE "content", IF dlt > 0 THEN CloseIdx(i) ELSE CloseIdx(i) - 1)
            ELSE \* Partition: "np ne"
@@ -354,7 +434,7 @@ Mutations(D) ==
       \* number of size entries
       SizeLen == UNION {
         LET vals == SizeVals(i)  nm == L[i].name  k == Len(vals) IN
-          IF nm = "Patch" THEN {}
+          IF nm \in {"Patch", "Bezier"} THEN {}
           ELSE {M("size_arity", "rep", i, WithSize(i, Append(vals, 0)), "content", i)} \cup
                (IF nm = "MeshPart" /\ vals[k] = 0
                 THEN {MOk("size_arity", "rep", i, WithSize(i, SubSeq(vals, 1, k - 1)), D)}
@@ -416,6 +496,12 @@ Mutations(D) ==
                            M("chart_midpoint", "rep", i, R(SetAttr(L[i], "midpoint", "0.25")), "grammar", i),
                            M("chart_midpoint", "rep", i, R(SetAttr(L[i], "midpoint", "0.25 0.5 1 2")), "grammar", i)}
                             : i \in {j \in 1..n : L[j].k = "leaf"}}
+                   \cup UNION {{M("bezier_attr", "rep", i, R(SetAttr(L[i], "dim", "3")), "grammar", i),
+                                M("bezier_attr", "rep", i, R(SetAttr(L[i], "size", "1")), "grammar", i),
+                                M("bezier_attr", "rep", i, R(SetAttr(L[i], "type", "round")), "content", i)} : i \in DimLines("Bezier")}
+                   \cup UNION {UNION {{M("extrude_attr", "rep", i, R(SetAttr(L[i], a, "0.5")), "grammar", i),
+                                       M("extrude_attr", "rep", i, R(SetAttr(L[i], a, "a 0 0")), "grammar", i)}
+                                        : a \in {x \in {"origin", "offset", "angles"} : HasAttr(L[i], x)}} : i \in DimLines("Extrude")}
 
       \* index ranges
       DataIn(nm) == {j \in 1..n : L[j].k = "data" /\ L[j].name = nm}
@@ -448,11 +534,17 @@ Mutations(D) ==
 
       \* malformed numbers / token counts
       MultiTok == DataIn("Vertices") \cup DataIn("Topology") \cup DataIn("Attribute")
+      PointTok == UNION {{M("token_count", "rep", i, R([L[i] EXCEPT !.toks = Append(@, "0")]), "content", i)} \cup
+                         {M("token_not_a_number", "rep", i, RepTok(i, t, "abc"), "content", i) : t \in 1..Len(L[i].toks)}
+                         : i \in DataIn("Points")}
+                  \* a control point count is a count: a negative one is malformed content
+                  \cup {M("bezier_negative_control_count", "rep", i, R([L[i] EXCEPT !.toks = << "-1" >>]), "content", i)
+                          : i \in {j \in DataIn("Points") : L[j - 1].k = "data"}}
       Tokens == UNION {{M("token_count", "rep", i, R([L[i] EXCEPT !.toks = Append(@, "0")]), "content", i)} \cup
                        (IF Len(L[i].toks) > 1 THEN {M("token_count", "rep", i, R([L[i] EXCEPT !.toks = Tail(@)]), "content", i)} ELSE {}) \cup
                        {M("token_not_a_number", "rep", i, RepTok(i, t, "abc"), "content", i) : t \in 1..Len(L[i].toks)}
                        : i \in MultiTok} \cup
-                {M("token_not_a_number", "rep", i, RepTok(i, 1, "abc"), "content", i) : i \in DataIn("Mapping") \cup DataIn("Patch")}
+                {M("token_not_a_number", "rep", i, RepTok(i, 1, "abc"), "content", i) : i \in DataIn("Mapping") \cup DataIn("Patch") \cup DataIn("Params")} \cup PointTok
       \* a number followed by garbage is not a number ("12x", "1.5" for an index, two numbers where one is expected)
       Garbage == UNION {{M("token_trailing_garbage", "rep", i, RepTok(i, t, L[i].toks[t] \o "x"), "content", i) : t \in 1..Len(L[i].toks)}
                           : i \in {j \in 1..n : L[j].k = "data"}} \cup
@@ -471,9 +563,9 @@ HasParentable(S) == "B" \in S \/ "D" \in S
 Init ==
   /\ ph = "doc"
   /\ mut = NoMut
-  /\ \E n \in CellCounts, S \in PartSets, cfg \in PtnCfgs, ind \in Indents, par \in BOOLEAN :
+  /\ \E n \in CellCounts, S \in PartSets, cfg \in PtnCfgs, ind \in Indents, par \in BOOLEAN, ck \in ChartKinds :
        /\ par => HasParentable(S)
-       /\ doc = MkDoc(n, S, cfg, ind, par)
+       /\ doc = MkDoc(n, S, cfg, ind, par, ck)
 Mutate ==
   /\ Muts /\ ph = "doc"
   /\ ph' = "mut"
@@ -512,7 +604,11 @@ Balanced(L) == /\ L[1].k = "open" /\ L[Len(L)].k = "close" /\ L[1].lvl = 0 /\ L[
                /\ \A i \in 2..(Len(L) - 1) : L[i].lvl >= 1
                /\ Cardinality({i \in 1..Len(L) : L[i].k = "open"}) = Cardinality({i \in 1..Len(L) : L[i].k = "close"})
 GrammarSane == Balanced(Lines(doc, TRUE)) /\ Balanced(Lines(doc, FALSE))
-               /\ ((\A p \in 1..Len(doc.parts) : ~doc.parts[p].par) => Lines(doc, TRUE) = Lines(doc, FALSE))
+               /\ (((\A p \in 1..Len(doc.parts) : ~doc.parts[p].par) /\ (\A c \in 1..Len(doc.charts) : doc.charts[c].body.kind # "extrude"))
+                      => Lines(doc, TRUE) = Lines(doc, FALSE))
+               \* the canonical form is a fixed point: writing the written document changes nothing
+               /\ \A c \in 1..Len(doc.charts) : doc.charts[c].body.kind = "extrude" =>
+                     CanonAngles(CanonAngles(doc.charts[c].body.angles)) = CanonAngles(doc.charts[c].body.angles)
 \* every mutation really changes the text and has a verdict
 MutSane == ph = "mut" => mut.v \in {"ok", "syntax", "grammar", "content", "reject"} /\ (mut.op # "trunc" => mut.at >= 1)
 
